@@ -1605,7 +1605,16 @@ func runRoute(c *core.Ctx) {
 	subCalls := map[*ssa.Function][]ssa.CallInstruction{}
 	an.Calls(r.Dispatch, func(call ssa.CallInstruction) {
 		sc := call.Common().StaticCallee()
-		if sc == nil || sc == r.Dispatch || core.FuncPkgPath(sc) != c.P.Module || sc.Signature.Recv() == nil || an.NamedOf(an.Deref(sc.Signature.Recv().Type())) != r.Server || sc.Signature.Results().Len() != 0 {
+		if sc == nil || sc == r.Dispatch || core.FuncPkgPath(sc) != c.P.Module || sc.Signature.Recv() == nil || an.NamedOf(an.Deref(sc.Signature.Recv().Type())) != r.Server {
+			return
+		}
+		// a routing step of its own: it answers itself (takes the response writer, returns nothing), or it picks the handler
+		// for one kind of resource (returns an http.Handler — not the HandlerFunc a handler constructor returns)
+		if sc.Signature.Results().Len() == 1 && isNamed(sc.Signature.Results().At(0).Type(), "net/http", "Handler") {
+			subCalls[sc] = append(subCalls[sc], call)
+			return
+		}
+		if sc.Signature.Results().Len() != 0 {
 			return
 		}
 		hasW := false
@@ -1882,20 +1891,26 @@ func init() {
 		Doc: "every list-valued configuration setting that the server turns into response headers is applied element by element with an accumulating call: in the loop over the list the header is written with Header.Add, never with Header.Set under a loop-invariant key (Set keeps only the last element, so all but one configured value lose their effect)",
 		Run: func(c *core.Ctx) {
 			n := 0
-			for _, fn := range serverFuncs(c) {
+			for _, fn := range c.P.Funcs("") {
 				for _, b := range fn.Blocks {
 					for _, in := range b.Instrs {
 						ia, ok := in.(*ssa.IndexAddr)
 						if !ok {
 							continue
 						}
-						root, pth := accessPath(an.Strip(ia.X))
+						// the list: a field of the configuration, or a parameter of a step that is handed one
+						// (`setCommonHeaders(h, s.conf.API.Warnings)`)
+						list := ia.X
+						if _, isParam := an.Origin(list).(*ssa.Parameter); isParam {
+							list = resolveAcross(c, list, 0)
+						}
+						root, pth := accessPath(an.Strip(list))
 						if len(pth) == 0 || root == nil {
 							continue
 						}
 						// the slice is a field of a struct declared in the config package
 						fieldName := pth[len(pth)-1]
-						if fieldName == "[]" || !fieldOfConfig(c, ia.X) {
+						if fieldName == "[]" || !fieldOfConfig(c, list) {
 							continue
 						}
 						h := loopHeader(b)
